@@ -119,6 +119,15 @@ pub fn search(_tier: &str, _only: Option<&str>) {
             for (k, e) in items.iter().enumerate() { if is_list && &t[k] != e { errs.push(("index", format!("{:?}", e), format!("{:?}", t[k]))); } }
             if is_list { for e in &items { if !t.contains(e) { errs.push(("contains", "true".into(), "false".into())); } }
                          if t.contains(&LTerm::from(99isize)) { errs.push(("contains", "false".into(), "true".into())); } }
+            // iter_mut visits exactly the elements that iter visits (an improper tail included), in the same order
+            if is_list {
+                let mut y = t.clone();
+                let seen: Vec<T> = y.iter_mut().map(|e| e.clone()).collect();
+                if seen != items { errs.push(("iter_mut", format!("{:?}", items), format!("{:?}", seen))); }
+                let mut z = t.clone();
+                for k in 0..items.len() { let got = guard(std::panic::AssertUnwindSafe(|| z[k].clone())); let mut z2 = t.clone(); let gm = guard(std::panic::AssertUnwindSafe(|| { let e: &mut T = &mut z2[k]; e.clone() })); if gm != got { errs.push(("index_mut", format!("{:?}", got), format!("{:?}", gm))); } }
+                let _ = &mut z;
+            }
             // collect / FromIterator and Extend on proper lists
             if let M::L(es, None) = m {
                 let c: T = es.iter().map(|e| e.build(&vars)).collect();
